@@ -98,7 +98,7 @@ def run(ctx):
     tmp = tempfile.mkdtemp(prefix="verif_c20_")
     nfile = 0
     try:
-        sub = datas if ctx.tier == "thorough" or ctx.escalated else datas[:: max(1, len(datas) // 60)] + [x for x in datas if any(ord(c) > 127 for c in x[0])] + [x for x in datas if x[0] in ("", "\n")]
+        sub = datas if ctx.tier == "thorough" else datas[:: max(1, len(datas) // 60)] + [x for x in datas if any(ord(c) > 127 for c in x[0])] + [x for x in datas if x[0] in ("", "\n")]
         for i, (t, d) in enumerate(sub):
             for enc, explicit in (("utf-8", None), ("utf-8", "utf-8"), ("utf-8-sig", None), ("utf-8-sig", "utf-8-sig"), ("latin-1", "latin-1"), ("utf-16", "utf-16")):
                 try:
